@@ -373,7 +373,6 @@ func TestVerifReplayC04(t *testing.T) {
 }
 `
 
-
 // replayC05 attaches a concrete observation to a failed frame obligation:
 // resolve over the repository's own test universes with a plain LocalClient
 // and compare what the client reports before and after.
@@ -517,7 +516,6 @@ func TestVerifReplayC05(t *testing.T) {
 	}
 }
 `
-
 
 const c04MarkersTest = `package pypi
 
